@@ -6,6 +6,7 @@
 
 pub mod curves;
 pub mod gen;
+pub mod limits;
 pub mod ora;
 pub mod regime;
 
@@ -709,6 +710,21 @@ pub fn property() -> Property {
         about: "deterministic grid: 12 shapes per degree x 15 unit exponents -149..119 / 84 translations (2^e, e in {-100,-10,8,16,30,100}, gap in {2,6,7,8,12,16,19}, both signs) x 4 curve types; same clauses as regime-extrema",
         kind: Kind::Index { total: regime::grid_total::<f32>(), quick: regime::grid_total::<f32>(), thorough: regime::grid_total::<f32>(), f: regime::grid_case::<f32> },
     });
+    // ---- integer-typed parameters at their limits: see limits.rs
+    macro_rules! limits {
+        ($name:literal, $about:expr, $counts:expr, $case:ident, $S:ty) => {
+            checks.push(Check { name: $name, about: $about, kind: Kind::Index { total: limits::total($counts), quick: 2 * 4 * $counts as u64, thorough: 16 * 4 * $counts as u64, f: limits::$case::<$S> } });
+        };
+    }
+    let lss = "binary_search_point_by_steps with steps in {1,2,3,4,5,7,8,9,...,2^k-1,2^k,2^k+1,...,32766,32767,32768,32769,49152,65533,65534,65535} x 4 curve types on small curves, query within two diameters, epsilon from 0.3 down to 1/(16 steps): returns (watchdog), returned point == evaluate(returned t) == the oracle's curve point, not farther than the end point and EVERY sample i/steps, i < steps";
+    limits!("limits-search-steps-f64", lss, limits::STEPS.len(), search_steps_case, f64);
+    limits!("limits-search-steps-f32", lss, limits::STEPS.len(), search_steps_case, f32);
+    let lsc = "binary_search_point with a coarse iterator of 0,1,2,3,4,5,255,256,257,16384,32767,32768,32769,65534,65535,65536,65537,70001 pairs (i/count, vek's own evaluate there; arbitrary parameters for <= 5) x 4 curve types: same clauses against every supplied pair and the end point";
+    limits!("limits-search-coarse-count-f64", lsc, limits::COARSE_COUNTS.len(), search_coarse_case, f64);
+    limits!("limits-search-coarse-count-f32", lsc, limits::COARSE_COUNTS.len(), search_coarse_case, f32);
+    let lln = "length_by_discretization with step_count in {0,1,2,3,4,7,8,...,32766,32767,32768,32769,49152,65533,65534,65535} x 4 curve types on small curves (also straight ones): returns (watchdog), >= chord, <= control polygon, == polyline with step_count+1 segments, L(2s+1) >= L(s) while 2s+1 <= 65535";
+    limits!("limits-length-step-count-f64", lln, limits::STEP_COUNTS.len(), length_case, f64);
+    limits!("limits-length-step-count-f32", lln, limits::STEP_COUNTS.len(), length_case, f32);
     checks.push(Check {
         name: "length-step-count-limits",
         about: "length_by_discretization at step_count = 65535, 65534, 65533, 32767, 32768 on the four types: no documented precondition on step_count, the length bounds must hold",
@@ -716,7 +732,7 @@ pub fn property() -> Property {
     });
     Property {
         id: "C15",
-        rule: "extrema checks: a case is non-trivial when some coordinate has an interior extremum (simple root of its derivative strictly inside (0,1)) or a root of its derivative within 1e-3 of 0 or 1; search checks: the binary phase improved on the best coarse sample or there are >= 2 coarse samples; length checks: control polygon longer than the chord. regime-extrema / regime-grid: some coordinate has an interior extremum that beats both end values by more than 4x the value tolerance of its regime (so returning an end point, or the wrong critical point, is a detected failure); regime-search as search; regime-length: control polygon longer than the chord by more than 8x the tolerance. Cases are proptest byte tapes (fixed seed); distinct = distinct consumed tape prefix per check",
+        rule: "extrema checks: a case is non-trivial when some coordinate has an interior extremum (simple root of its derivative strictly inside (0,1)) or a root of its derivative within 1e-3 of 0 or 1; search checks: the binary phase improved on the best coarse sample or there are >= 2 coarse samples; length checks: control polygon longer than the chord. regime-extrema / regime-grid: some coordinate has an interior extremum that beats both end values by more than 4x the value tolerance of its regime (so returning an end point, or the wrong critical point, is a detected failure); regime-search as search; regime-length: control polygon longer than the chord by more than 8x the tolerance. limits-*: as search / length (every case runs all clauses; every (curve type, count) pair gets the same number of cases). Cases are proptest byte tapes (fixed seed) or indices; distinct = distinct consumed tape prefix / index per check",
         assumptions: &[
             "rustc and the proptest runner/shrinker are trusted",
             "oracle = de Casteljau / Bernstein derivative on plain arrays (c15::ora), exact in Rat, f64 for f64 and f32 curves; it never calls vek's Bezier code (vek's evaluate is only used to state 'returned point == evaluate(returned t)')",
@@ -727,6 +743,8 @@ pub fn property() -> Property {
             "regime exclusions (what no implementation working in S can deliver): max|control| > MAX/64 (3*(e-3c1+3c0-s) and ctrl*3 inside evaluate reach 24 max|control|); for search and length the common unit 2^k is restricted so that squared coordinate differences neither overflow nor lose bits to underflow (vek's magnitude / distance_squared are documented as the plain sqrt / sum of squares): f64 k in [-454, 507-s-far], f32 k in [-35, 59-s-far] (s = exponent of the shape, far = exponent of the farthest query); offsets keep gap >= 1 bit above the shape and <= MANT-3 (below that the stored curve has < 2 bits of shape left); subnormal control values are included for the per-axis clauses (absolute error of evaluate there: half a quantum per product)",
             "regime checks additionally assert the documented 'inflection point along the axis, if any' in floats only for a simple root r of the shape's derivative in [1/16, 15/16] that provably survives the admitted perturbation: with D = |p'(r)| and s = 2 dtol / D, s <= 1/256, |A| s <= D/4 and (D / max|coef|)^2 > 16 eps (away from the code's double-root branch); a reported parameter within 2s of r is demanded",
             "regime-search asks for epsilon >= 1e-6 on translated curves (2 EPSILON only on untranslated ones): the property has no clause on running time, and on a translated curve the distance computed from points quantised to ulp(offset) is a staircase on which vek's binary phase (which keeps stepping by the current half interval while the distance decreases) was observed to take 4.35e9 steps (23 s): QuadraticBezier2<f64> x = -7.99167628880894e147 + (4,6,2)*2^438, y = (-6.875,-7.0625,-6.5)*2^438, p = (-7.991676288808937e147, 4.306074744756277e132), steps = 27, epsilon = 2 EPSILON; the result satisfied every clause",
+            "limits-* (limits.rs): the three count parameters of the API (steps: u16, step_count: u16, number of pairs yielded by `coarse`) at 0/1 where legal, small values, 2^k-1, 2^k, 2^k+1, 2^15-2..2^15+1, 3*2^14, 2^16-3..2^16-1 (iterator also 2^16, 2^16+1, 70001), f64 and f32, on small dyadic curves at unit scale with the query within two control-polygon diameters and epsilon >= 1/(16 steps) (and > 4 EPSILON), so that the unchanged code needs milliseconds per call; the oracle evaluates EVERY coarse sample i/steps (parameter formed in S exactly as documented) in f64. steps = 0 is excluded as not legal (DESIGN 'Pre.': steps >= 1; the code computes the half interval 1/0 = inf and never leaves `while h >= epsilon`); step_count = 0 and an empty `coarse` are legal (docs) and included",
+            "limits-*: each call under test runs on its own thread and the case waits at most 30 s for it (a panic - the harness is built with overflow checks - is a failure; no answer within 30 s is INCONCLUSIVE: the case is discarded and counted, and too many discards end the run with exit 2, never with a violation); this is the only use of a clock in the crate and cannot change the verdict of a call that returns; these are index checks, so a hanging input is executed at most twice (run + confirmation) and never shrunk. Length tolerance at large counts is the worst-case bound, linear in the number of segments: 2 E per segment + 4 eps (segments+2) polygon (f32 at 65536 segments: ~0.07 max|control|)",
             "Rat is not used in the regime checks: exact arithmetic is invariant under translation and scaling, and 2^k with |k| > 24 overflows the i128 rationals in the cubic terms",
         ],
         checks,
